@@ -32,6 +32,7 @@ RULES = {
     "C10-Q4": "device-dependent text ownership: no leak, no double release, no use after release on any path (typestate)",
     "C10-Q5": "the new error is queued whether or not duplicating its text succeeded",
     "C10-Q6": "SCPI_ErrorPop presets (0, NULL) before removing from the queue",
+    "C10-Q8": "a clear is unconditional: every path of *CLS (SCPI_CoreCls) runs SCPI_ErrorClear and every path of SCPI_ErrorClear empties the ring (fifo_clear), whatever the status registers say",
     "C10-Q7": "the library's own text duplicator (OUR_strndup, builds without strndup) writes only inside the object it allocated",
 }
 
@@ -462,6 +463,28 @@ def rule_q7(ck, prog, S, rule="C10-Q7"):
         ck.holds(rule, stq, K.loc(g_, nul_[0]), "result[len] = 0 on every returning path")
 
 
+def rule_q8(ck, prog, S):
+    for host, effect in (("SCPI_CoreCls", "SCPI_ErrorClear"), ("SCPI_ErrorClear", "fifo_clear")):
+        f = prog.fn(host)
+        if f is None:
+            ck.anchor_lost("C10-Q8", host)
+            continue
+        ck.analysed(f)
+        st = K.site(f, "always(%s)" % effect, 0)
+        sites_ = K.effect_sites(prog, S, f, lambda c_, e_=effect: c_.get("callee") == e_, any_linkage=True)
+        nodes = [x[0] for x in sites_]
+        pg = S.pg(f)
+        reach = pg.reachable([pg.entry], blocked_edge=lambda e: e.kind == "elem" and e.node in nodes)
+        if not nodes:
+            ck.violated("C10-Q8", st, K.loc(f), "%s never calls %s" % (host, effect))
+        elif pg.exit in reach:
+            ck.violated("C10-Q8", st, K.loc(f, nodes[0]),
+                        "%s can return without %s: the queue keeps entries (and their texts) over a clear when the condition in front "
+                        "of the call is false - the status bits it looks at can be written by the application" % (host, effect))
+        else:
+            ck.holds("C10-Q8", st, K.loc(f, nodes[0]), "every path runs %s" % effect)
+
+
 def run(ck, fb, tier):
     seen_dup = False
     for cfg in fb.configs:
@@ -472,6 +495,7 @@ def run(ck, fb, tier):
             rule_q1_q2(ck, prog, S)
         rule_q3_q5_q6(ck, prog, S, cfg)
         rule_q4(ck, prog, S, cfg)
+        rule_q8(ck, prog, S)
         K.narrowing_rule(ck, prog, "C10-N", lambda f_: f_.relfile.endswith(("error.c", "fifo.c")))
         if prog.fn("OUR_strndup") is not None:
             rule_q7(ck, prog, S)
